@@ -187,7 +187,10 @@ func (g *group) Iterate(ctx context.Context, onFields OnFields, onRow OnRow) (in
 			if ctabs == nil {
 				ctabs = make(map[string]interface{})
 			}
-			ctab := g.Crosstab.Eval(key).(string)
+			ctab, isString := g.Crosstab.Eval(key).(string)
+			if !isString {
+				return false, fmt.Errorf("crosstab expression %v did not yield a string for %v", g.Crosstab, key.AsMap())
+			}
 			ctabs[ctab] = nil
 			kvs = append(kvs, &keyedVals{key, vals})
 		} else {
